@@ -239,7 +239,8 @@ GradCands(mc, gr, got, info) ==
         g0 == RMax(RMaxSeq([q \in 1..n |-> IF q <= N THEN Zero ELSE RDiv(RAbs(g[q]), RPow(Tc, dOf(q)))]), fl0)
         scale(q) == IF q <= N THEN gtime ELSE RMul(g0, RPow(Tc, dOf(q)))
         w == WorstOf([q \in 1..n |-> RDiv(RAbs(RSub(H(got[q]), g[q])), RAdd(RMul(Tol6, scale(q)), RPow("10", -250)))])
-    IN <<CandM("C07", "grad.value", w[1], One, info @@ [at |-> w[2], n |-> n])>>
+    IN IF Len(got) # n THEN <<Cand("C07", "grad.length", FALSE, info @@ [got |-> Len(got), n |-> n])>>     \* whatever the caller's vector held before
+       ELSE <<CandM("C07", "grad.value", w[1], One, info @@ [at |-> w[2], n |-> n])>>
 
 \* samples handed to the running cost (C08): index, local and global time, state; count and multiset
 SampleCands(mc, parts, samples, info) ==
